@@ -101,7 +101,7 @@ def main():
     for d in sorted(os.listdir(SEED)):
         if not re.fullmatch(r"C\d\d", d):
             continue
-        for x in ("A", "B", "C"):
+        for x in os.environ.get("SEED_LETTERS", "ABC"):
             sid = "%s-%s%s" % (d, ROUND, x)
             if ROUND == "r4":
                 meta_kind = {"A": "refactoring gone wrong", "B": "plausible feature / optimisation / bug-fix attempt"}.get(x)
